@@ -102,6 +102,9 @@ pub struct Case {
     /// `--files-from` only: the list contains an undecodable line before the n-th entry
     #[serde(default, skip_serializing_if = "Option::is_none")]
     pub list_poison: Option<usize>,
+    /// (alias, target): two names of one file (hard links); both are entries of `files`
+    #[serde(default, skip_serializing_if = "Vec::is_empty")]
+    pub hardlinks: Vec<(String, String)>,
     /// files whose placeholder is a symbolic link (directory / glob / files-from forms only)
     #[serde(default, skip_serializing_if = "Vec::is_empty")]
     pub symlinks: Vec<String>,
@@ -401,6 +404,26 @@ impl Case {
             if sc.real_tree {
                 sc.symlinks = self.symlinks.clone();
             }
+            // (only where real placeholders exist: the product tells one file from another by
+            // asking the file system)
+            if sc.real_tree {
+                sc.hardlinks = self
+                    .hardlinks
+                    .iter()
+                    .filter(|(a, t)| {
+                        self.files.iter().any(|f| f.path == *a) && self.files.iter().any(|f| f.path == *t)
+                    })
+                    .cloned()
+                    .collect();
+                // one file has one content
+                for (a, t) in sc.hardlinks.clone() {
+                    if let Some(tb) = sc.files.iter().find(|f| f.path == t).map(|f| f.bytes.clone()) {
+                        if let Some(af) = sc.files.iter_mut().find(|f| f.path == a) {
+                            af.bytes = tb;
+                        }
+                    }
+                }
+            }
         }
         sc.workers = self.workers.max(1);
         sc.chunks = self.chunks.clone();
@@ -434,6 +457,13 @@ impl Case {
         sc.argv.extend(self.extra_args.iter().cloned());
         sc.argv.push(self.files[i].path.clone());
         sc.files = vec![self.files[i].clone()];
+        // a second name of a file has that file's content
+        let links: &[(String, String)] = if self.path_form == PathForm::Explicit { &[] } else { &self.hardlinks };
+        if let Some((_, t)) = links.iter().find(|(a, _)| *a == self.files[i].path) {
+            if let Some(tf) = self.files.iter().find(|f| f.path == *t) {
+                sc.files[0].bytes = tf.bytes.clone();
+            }
+        }
         sc.workers = 1;
         sc
     }
@@ -1063,6 +1093,7 @@ impl Case {
         // a file named k times may legitimately be printed 1..k times
         let mut optional_blocks: Vec<&[u8]> = vec![];
         let mut judged_logs: Vec<&(String, String)> = vec![];
+        let linked = |p: &str| sc.hardlinks.iter().any(|(a, t)| a == p || t == p);
         for (i, f) in self.files.iter().enumerate() {
             let read_fault = r.read_failed.iter().any(|(p, _)| *p == f.path)
                 && r.fired.iter().any(|x| x.target == f.path && !x.kind.is_benign() && !is_write_side(x.op));
@@ -1070,12 +1101,26 @@ impl Case {
                 .fired
                 .iter()
                 .any(|x| x.target == f.path && !x.kind.is_benign() && is_write_side(x.op));
+            let group_fault = linked(&f.path)
+                && r.fired.iter().any(|x| {
+                    !x.kind.is_benign()
+                        && sc.hardlinks.iter().any(|(a, t)| {
+                            (a == &f.path || t == &f.path) && (x.target == *a || x.target == *t)
+                        })
+                });
+            let read_fault = read_fault || group_fault;
             let (asc, ar) = &alone[i];
             let alone_failed = exit_nonzero(ar);
             any_failed |= read_fault || write_fault || alone_failed;
             let got = r.final_bytes(&sc, &f.path);
             let named = sc.argv.iter().filter(|a| **a == f.path).count();
-            if read_fault && named > 1 {
+            if (read_fault || write_fault) && linked(&f.path) {
+                // one of the accesses to a file with two names failed: nothing is claimed
+                stats.probe("c18_linked_file_with_injected_failure_unconstrained");
+                if !alone[i].1.stdout.is_empty() {
+                    optional_blocks.push(&alone[i].1.stdout);
+                }
+            } else if read_fault && named > 1 {
                 // one of several accesses to the same file failed: nothing is claimed about it
                 stats.probe("c18_repeated_file_with_injected_failure_unconstrained");
                 if !alone[i].1.stdout.is_empty() {
@@ -1099,7 +1144,20 @@ impl Case {
                     stats.probe("c18_file_failing_on_its_own");
                 }
                 let want = ar.final_bytes(asc, &f.path);
-                if got != want {
+                // A file reachable under two names (named twice, or hard-linked) may be formatted
+                // once or once per name, one after the other: formatting its formatted text again
+                // is then also what "alone" gives it.
+                let mut twice: Option<Vec<u8>> = None;
+                if got != want && (named > 1 || linked(&f.path)) {
+                    if let Some(w) = want {
+                        let mut again = asc.clone();
+                        again.files[0].bytes = w.to_vec();
+                        let r2 = self.run(&again, stats);
+                        twice = r2.final_bytes(&again, &f.path).map(|b| b.to_vec());
+                        stats.probe("c18_file_with_two_names_compared_with_second_pass");
+                    }
+                }
+                if got != want && !(twice.is_some() && got == twice.as_deref()) {
                     out.push(Finding {
                         oracle: "c18.batch_ne_alone".into(),
                         detail: format!(
@@ -1110,14 +1168,22 @@ impl Case {
                         ),
                     });
                 }
-                if !ar.stdout.is_empty() {
-                    expected_blocks.push(&ar.stdout);
-                    let named = sc.argv.iter().filter(|a| **a == f.path).count();
-                    for _ in 1..named {
+                if linked(&f.path) {
+                    // one file under two names: whether it is handled (printed, reported) once or
+                    // once per name is not something the property fixes
+                    if !ar.stdout.is_empty() {
                         optional_blocks.push(&ar.stdout);
                     }
+                } else {
+                    if !ar.stdout.is_empty() {
+                        expected_blocks.push(&ar.stdout);
+                        let named = sc.argv.iter().filter(|a| **a == f.path).count();
+                        for _ in 1..named {
+                            optional_blocks.push(&ar.stdout);
+                        }
+                    }
+                    judged_logs.extend(ar.logs.iter());
                 }
-                judged_logs.extend(ar.logs.iter());
             }
         }
         if !self.bogus_paths.is_empty() {
